@@ -723,6 +723,14 @@ func (wsEngine) Exec(t *testing.T, cc any) *simrt.Result {
 		emit, emitWire := wsEmissions(c)
 		h := &wsHandler{sim: sim, emit: emit}
 		hc := &wsHandler{sim: sim, name: "wshc"}
+		// the companion's handler emits too (two write loops at work at once)
+		var compWire [][]byte
+		for i := range c.Companion {
+			txt := fmt.Sprintf("companion emission #%d %s", i, strings.Repeat(wsContents[i%len(wsContents)]+"y", 40))
+			hc.emit = append(hc.emit, mocrelay.NewServerNoticeMsg(txt))
+			compWire = append(compWire, marshalNoEscape([]any{"NOTICE", txt}))
+		}
+		var compGot [][]byte
 		relay := mocrelay.NewRelay(&wsDispatch{main: h, comp: hc}, relayOpt(c.Opt))
 		mux := &mocrelay.ServeMux{Relay: relay}
 		srvCtx, srvCancel := context.WithCancel(context.Background())
@@ -739,16 +747,18 @@ func (wsEngine) Exec(t *testing.T, cc any) *simrt.Result {
 			sim.Go("wsk", func() {
 				defer func() { compDone = true }()
 				var err error
-				cconn, clink, err = sim.DialWS(ctx, context.WithValue(srvCtx, wsCompanionKey{}, true), "ws1", mux, simrt.SimConnCfg{Chunk: 4096})
+				cconn, clink, err = sim.DialWS(ctx, context.WithValue(srvCtx, wsCompanionKey{}, true), "ws1", mux, simrt.SimConnCfg{Chunk: c.Conn.Chunk})
 				if err != nil {
 					return
 				}
 				sim.Go("wsk.rd", func() {
 					for {
 						verifsim.Yield("wsk.rd")
-						if _, _, err := cconn.Read(ctx); err != nil {
+						_, p, err := cconn.Read(ctx)
+						if err != nil {
 							return
 						}
+						compGot = append(compGot, p)
 					}
 				})
 				for i := range c.Companion {
@@ -857,6 +867,19 @@ func (wsEngine) Exec(t *testing.T, cc any) *simrt.Result {
 					sim.Violate("C12", "valid-frame-not-delivered", map[string]string{"conn": "companion", "type": "EVENT"}, "a correctly signed EVENT sent over a second, concurrent connection never reached the handler (in order): #%d %s; the handler received %d messages", i, truncate(string(marshalNoEscape(msgWire(want))), 200), len(hc.recvd))
 					break
 				}
+			}
+			for i, w := range compWire {
+				if i >= len(compGot) || !jsonEqual(compGot[i], w) {
+					got := "nothing"
+					if i < len(compGot) {
+						got = truncate(string(compGot[i]), 200)
+					}
+					sim.Violate("C12", "emission-lost", map[string]string{"conn": "companion", "type": "NOTICE"}, "the companion session's handler emitted %s; the client received %s in its place (%d frames in all)", truncate(string(w), 120), got, len(compGot))
+					break
+				}
+			}
+			if len(compGot) > len(compWire) {
+				sim.Violate("C12", "unexpected-server-frame", map[string]string{"conn": "companion"}, "the companion client received %d frames, its handler emitted %d", len(compGot), len(compWire))
 			}
 			if len(hc.recvd) > compWrote {
 				sim.Violate("C12", "invalid-frame-delivered", map[string]string{"conn": "companion"}, "the companion session's handler received %d messages, the client sent %d", len(hc.recvd), compWrote)
